@@ -145,7 +145,10 @@ class InterpretedFunctionsPlanner(MetaEngine, mixins.OneshotPlannerMixin):
             self.engine._skip_checks = True
         while True:
             if timeout is not None:
-                timeout -= time.time() - start
+                # only the time spent since the previous check is charged
+                now = time.time()
+                timeout -= now - start
+                start = now
                 if timeout <= 0:
                     return PlanGenerationResult(
                         PlanGenerationResultStatus.TIMEOUT, None, self.name
